@@ -274,6 +274,7 @@ class Interp:
         self.series_canon = series_canon or {}
         self.summaries = summaries or {}
         self.trace_calls = None  # optional callback(fobj, args) for rules
+        self.branch_oracle = None  # optional callback(stub, node) -> bool for branches on unmodelled library values
         self.check_beartype = True
         self.cur = []            # stack of (module, node) being evaluated
         self.series_sites = []   # (module, lineno, key, squared, argument poly)
@@ -509,6 +510,10 @@ class Interp:
                     return cv != 0
             raise Unsupported("data-dependent Python branch on a CasADi value", node)
         if isinstance(c, Stub):
+            # a rule may supply an oracle that answers such branches (file-system state, environment): it then explores
+            # the answers it cares about by re-running; without an oracle the construct is not interpreted
+            if self.branch_oracle is not None:
+                return bool(self.branch_oracle(c, node))
             raise Unsupported("Python branch on an unmodelled library value %r" % c, node)
         return bool(c)
 
@@ -916,6 +921,8 @@ class Interp:
         if isinstance(l, Stub) or isinstance(r, Stub):
             if isinstance(op, (ast.Is, ast.IsNot)):
                 return (l is r) == isinstance(op, ast.Is)
+            if self.branch_oracle is not None:
+                return Stub("(%s cmp %s)" % (getattr(l, "_name", "value"), getattr(r, "_name", "value")))     # decided by the oracle when branched on
             raise Unsupported("comparison with unmodelled value", n)
         f = {ast.Eq: O.eq, ast.NotEq: O.ne, ast.Lt: O.lt, ast.LtE: O.le, ast.Gt: O.gt, ast.GtE: O.ge, ast.Is: O.is_, ast.IsNot: O.is_not,
              ast.In: lambda a, b: a in b, ast.NotIn: lambda a, b: a not in b}[type(op)]
@@ -1101,6 +1108,10 @@ class Interp:
                 return getattr(o, k)
             except AttributeError:
                 raise InterpRaise("AttributeError", "'str' object has no attribute '%s'" % k, n)
+        if isinstance(o, (set, frozenset)):
+            if k in ("add", "update", "discard", "remove", "union", "intersection", "difference", "copy", "clear", "issubset", "issuperset", "isdisjoint", "pop"):
+                return getattr(o, k)
+            raise InterpRaise("AttributeError", "'set' object has no attribute '%s'" % k, n)
         if isinstance(o, tuple):
             if k in ("index", "count"):
                 return getattr(o, k)
